@@ -10,8 +10,10 @@ package c14
 import (
 	"encoding/json"
 	"fmt"
-	"os"
+	"runtime"
+	"runtime/debug"
 	"strings"
+	"sync"
 
 	"verif/harness/c14ref"
 	"verif/harness/core"
@@ -24,9 +26,39 @@ type caseRec struct {
 	Orig   string        `json:"original,omitempty"`
 }
 
-// pinned witnesses: known-finding witnesses first, then regression chains (shapes that exercised a corrected oracle
+// pinned witnesses: witnesses of the two goja defects this check found (both fixed in /repo, see known-findings.d/C14.json
+// "fixed") first, then regression chains (shapes that exercised a corrected oracle
 // rule or a delicate path during development). They run in every tier.
-var pinned = []string{}
+var pinned = []string{
+	// fixed ae15f7a: func gateway unwrapped any object with an error-typed 'value' (inbox/applied/C14-gateway-unwraps-non-goerror.md)
+	`{"driver":"expfnerr","frames":[{"js":true,"leaf":{"kind":"throw","expr":"valobj"}}]}`,
+	`{"driver":"run","frames":[{"js":true},{"js":false,"e":"fc","x":"expfnerr","b":"rethrow"},{"js":true,"leaf":{"kind":"throw","expr":"valobj"}}]}`,
+	// fixed be5f664: for-of / destructuring re-threw next()'s exception by value, losing the throw-site stack (inbox/applied/C14-forof-next-restack.md)
+	`{"driver":"run","frames":[{"js":true,"via":"forofnext"},{"js":true,"leaf":{"kind":"throw","expr":"num"}}]}`,
+	`{"driver":"run","frames":[{"js":true,"via":"destruct"},{"js":true,"leaf":{"kind":"throw","expr":"num"}}]}`,
+	// regression: a GoError made with NewGoError(exception) is unwrapped by the func gateway to that very *Exception (oracle correction)
+	`{"driver":"run","frames":[{"js":true,"h":"replace","rep":"obj"},{"js":false,"e":"reflerr1","x":"expfnerr","b":"reterr"},{"js":true},{"js":false,"e":"pxget","x":"tryget","b":"newgoerr"},{"js":true,"h":"rethrow","leaf":{"kind":"engine","expr":"undefvar"}}]}`,
+	`{"driver":"expfnerr","frames":[{"js":true},{"js":false,"e":"fc","x":"callable","b":"newgoerr"},{"js":true,"leaf":{"kind":"throw","expr":"sym"}}]}`,
+	// regression: interrupt leaving through Try / from inside a promise job; overflow swallowed by a native; foreign panic through for-of and finally
+	`{"driver":"tryget","frames":[{"js":true,"h":"rethrow+fin"},{"js":false,"e":"fc","leaf":{"kind":"interrupt"}}]}`,
+	`{"driver":"run","frames":[{"js":true,"h":"fin","via":"promise"},{"js":true,"h":"rethrow+fin"},{"js":false,"e":"reflerr","leaf":{"kind":"interrupt"}}]}`,
+	`{"driver":"run","frames":[{"js":true,"h":"finret"},{"js":false,"e":"ctor","x":"construct","b":"swallowall"},{"js":true,"h":"rethrow+fin","leaf":{"kind":"overflow"}}]}`,
+	`{"driver":"run","frames":[{"js":true,"h":"rethrow+fin","via":"forofbody"},{"js":true,"h":"fin"},{"js":false,"e":"dynget","leaf":{"kind":"foreign","expr":"int"}}]}`,
+	// regression: wrapped and joined Go errors through a wrapping intermediary; typed-nil error
+	`{"driver":"callable","frames":[{"js":true,"h":"swallow+fin"},{"js":false,"e":"method","x":"callable","b":"wraperr"},{"js":true,"h":"rethrow"},{"js":false,"e":"reflerr","leaf":{"kind":"reterr","expr":"join"}}]}`,
+	`{"driver":"callable","frames":[{"js":true,"h":"rethrow"},{"js":false,"e":"reflerr1","leaf":{"kind":"reterr","expr":"typednil"}}]}`,
+}
+
+func parseChain(js string) *c14ref.Chain {
+	ch := &c14ref.Chain{}
+	if err := json.Unmarshal([]byte(js), ch); err != nil {
+		panic("c14: bad pinned chain: " + err.Error())
+	}
+	if err := ch.Valid(); err != nil {
+		panic("c14: invalid pinned chain: " + err.Error() + ": " + js)
+	}
+	return ch
+}
 
 func Check() *core.Check {
 	return &core.Check{
@@ -65,60 +97,9 @@ func pickWS(r *core.Rng, xs []string, w []int) string { return xs[r.PickW(w)] }
 
 var handlerW = []int{34, 10, 8, 8, 8, 7, 6, 6, 6, 7}
 
-// excluded is the syntactic neighbourhood of listed known findings, kept out of random generation (see known-findings.d/C14.json).
-// VERIF_C14_NO_EXCLUSIONS=1 lifts the exclusions (used to confirm a fix of the listed findings before removing them here).
-var noExclusions = os.Getenv("VERIF_C14_NO_EXCLUSIONS") == "1"
-
-func excluded(c *c14ref.Chain) bool {
-	if noExclusions {
-		return false
-	}
-	n := len(c.Frames)
-	errObj := func(k string) bool {
-		switch k {
-		case "error", "typeerror", "rangeerror", "suberror", "subtype", "goerror":
-			return true
-		}
-		return false
-	}
-	// KF C14-gateway-unwraps-non-goerror: a thrown plain object with a 'value' property holding a wrapped Go error,
-	// anywhere in a chain that also has a func gateway with an error result.
-	val, gw := c.Frames[n-1].Leaf.Expr == "valobj", c.Driver == "expfnerr"
-	for i := range c.Frames {
-		val = val || c.Frames[i].Rep == "valobj"
-		gw = gw || c.Frames[i].X == "expfnerr"
-	}
-	if val && gw {
-		return true
-	}
-	// KF C14-forof-next-restack: a script for-of whose iterator's next() lets a value that is not a genuine Error
-	// object escape (the exception is re-created at the for-of statement): excluded when any frame below the link can
-	// put such a value in flight.
-	for i := range c.Frames {
-		if c.Frames[i].Via != "forofnext" {
-			continue
-		}
-		for j := i + 1; j < n; j++ {
-			f := &c.Frames[j]
-			if f.Rep != "" && !errObj(f.Rep) {
-				return true
-			}
-			if l := f.Leaf; l != nil {
-				switch l.Kind {
-				case "throw", "panic":
-					if !errObj(l.Expr) {
-						return true
-					}
-				case "reterr":
-					if l.Expr == "exception" {
-						return true
-					}
-				}
-			}
-		}
-	}
-	return false
-}
+// excluded is the syntactic neighbourhood of listed known findings, kept out of random generation. Nothing is listed at
+// present (known-findings.d/C14.json has no open finding), so nothing is excluded.
+func excluded(c *c14ref.Chain) bool { return false }
 
 func genOnce(r *core.Rng) *c14ref.Chain {
 	n := 1 + r.PickW([]int{3, 9, 16, 18, 16, 14, 13, 11})
@@ -140,7 +121,7 @@ func genOnce(r *core.Rng) *c14ref.Chain {
 				f.Rep = pickS(r, c14ref.JSKinds)
 			}
 			if !last && c.Frames[i+1].JS {
-				f.Via = pickWS(r, c14ref.Vias, []int{14, 6, 7, 6, 8, 8, 9, 8, 9, 7, 6, 12})
+				f.Via = pickWS(r, c14ref.Vias, []int{14, 6, 7, 6, 8, 8, 9, 8, 9, 7, 6, 12, 7, 6})
 				if f.Via == "promise" {
 					if promise {
 						f.Via = "call"
@@ -329,10 +310,13 @@ func candidates(c *c14ref.Chain) []*c14ref.Chain {
 			add(d)
 		}
 	}
-	for _, drv := range []string{"run", "callable"} {
-		if c.Driver != drv {
-			d := c.Clone()
-			d.Driver = drv
+	if c.Driver != "run" { // every proposal moves strictly towards the plainest form, so minimisation cannot cycle
+		d := c.Clone()
+		d.Driver = "run"
+		add(d)
+		if c.Driver != "callable" {
+			d = c.Clone()
+			d.Driver = "callable"
 			add(d)
 		}
 	}
@@ -416,16 +400,14 @@ func minimise(c *c14ref.Chain, monitor string) *c14ref.Chain {
 	return c
 }
 
+var tune sync.Once
+
 func run(c *core.Ctx) core.Result {
+	// single-threaded workload of thousands of short-lived Runtimes per second: one P and a lazier GC halve the CPU cost
+	tune.Do(func() { runtime.GOMAXPROCS(1); debug.SetGCPercent(400) })
 	var ch *c14ref.Chain
 	if c.Index < 0 {
-		ch = &c14ref.Chain{}
-		if err := json.Unmarshal([]byte(pinned[-c.Index-1]), ch); err != nil {
-			panic("c14: bad pinned chain: " + err.Error())
-		}
-		if err := ch.Valid(); err != nil {
-			panic("c14: invalid pinned chain: " + err.Error())
-		}
+		ch = parseChain(pinned[-c.Index-1])
 	} else {
 		ch = genChain(c.Rng)
 	}
@@ -436,6 +418,15 @@ func run(c *core.Ctx) core.Result {
 	if c.Stats.WantSample() && c.Index >= 0 && c.Index%97 == 0 {
 		src, _, _ := buildSource(ch)
 		c.Stats.Sample(caseRec{Chain: ch, Canon: canon, Source: src})
+	}
+	if c.Index >= 0 && c.Index%100 == 0 && vd.bug == "" && !vd.fuel {
+		// standing determinism self-check: the same chain on a second fresh runtime must give the same observations
+		c.Stats.Inc("determinism_rechecks")
+		if vd2 := runChain(ch, false); vd2.monitor != vd.monitor || vd2.detail != vd.detail || vd2.events != vd.events || vd2.laws != vd.laws || vd2.steps != vd.steps {
+			return core.Result{Verdict: core.Violated, NonTrivial: true, Key: canon, Monitor: "nondeterministic",
+				Detail:    fmt.Sprintf("two executions of the same chain on fresh runtimes differ: %+v vs %+v", vd, vd2),
+				Signature: canon + " | nondeterministic", Case: caseRec{Chain: ch, Canon: canon}}
+		}
 	}
 	switch {
 	case vd.bug != "":
